@@ -1,39 +1,76 @@
 ------------------------------ MODULE FreshGen ------------------------------
 (* GEN form: FreshMC plus a history variable.  TLC enumerates (or simulates) construction histories over the menu:  *)
-(*   fused : every Construct / Reconfigure is followed by the Export of that artefact; histories = all sequences of  *)
-(*           <= GEN_DEPTH steps, each a menu item built as a new object or a load_from_config item applied AGAIN to  *)
-(*           the object of a live artefact (kinds in Reconf), with at most GEN_RESTARTS interpreter restarts         *)
-(*           between two of them (exhaustive)                                                                       *)
+(*   fused : every build (Construct of all its parts / Reconfigure) is followed by the Export of every artefact it   *)
+(*           emitted; histories = all sequences of <= GEN_DEPTH builds, each a menu item built as new object(s) or   *)
+(*           a load_from_config item applied AGAIN to the object of a live artefact (kinds in Reconf), with at most  *)
+(*           GEN_RESTARTS interpreter restarts between two of them (exhaustive)                                     *)
 (*   free  : Construct / Reconfigure / Export of any live artefact / Restart in any order, GEN_LEN steps (-simulate) *)
-(* Import steps are forced (the only enabled step of an interpreter that has not imported) and not logged.          *)
-EXTENDS FreshMC, Json
-VARIABLES hist, done, pend, nres
-gvars == <<arts, old, proc, live, imported, draws, nexp, hist, done, pend, nres>>
+(*   opts  : the OPTION LANE.  For every (kind, entry point, user-supplied fields) of the menu whose entry point has  *)
+(*           option arguments, two histories that walk through ALL option combinations of Fresh!Opts, each built and *)
+(*           exported twice: both passes in one interpreter / the second pass in a new interpreter (the latter for   *)
+(*           the base items only unless GEN_RESTARTS > 0; exhaustive: one initial state per plan)                   *)
+(* A build that emits several artefacts (Fresh!Parts) is a sequence of Construct steps, one per part, that nothing    *)
+(* interrupts.  Import steps are forced (the only enabled step of an interpreter that has not imported), not logged.  *)
+EXTENDS FreshMC, Json, SequencesExt
+VARIABLES hist, done, pend, nres, plan
+gvars == <<arts, old, proc, live, imported, draws, nexp, hist, done, pend, nres, plan>>
 Depth == atoi(IOEnv.GEN_DEPTH)
 MaxRestarts == atoi(IOEnv.GEN_RESTARTS)
-Fused == IOEnv.GEN_MODE = "fused"
+Mode == IOEnv.GEN_MODE
+Fused == Mode \in {"fused", "opts"}
 MaxLen == atoi(IOEnv.GEN_LEN)
 Log(x) == hist' = Append(hist, x)
 LastOp == IF hist = <<>> THEN "none" ELSE hist[Len(hist)].op
-GInit == MInit /\ hist = <<>> /\ done = FALSE /\ pend = 0 /\ nres = 0
-GImport == ~imported /\ Import(0) /\ UNCHANGED <<draws, nexp, hist, done, pend, nres>>
-GConstruct == /\ imported /\ pend = 0 /\ Len(arts) < Depth /\ (Fused \/ Len(hist) < MaxLen)
+
+\* ---- the option lane: plans
+SweepKeys == {<<m.kind, m.how, m.ex>> : m \in {x \in Menu : Cardinality(Opts(x.kind, x.how)) > 1}}
+OptSeq(key) == SetToSeq({MO(key[1], key[2], key[3], o, FALSE) : o \in Opts(key[1], key[2])})
+Pass(key) == [i \in 1..Len(OptSeq(key)) |-> [op |-> "B", m |-> OptSeq(key)[i]]] \o <<>>
+Sweep(key, restart) == Pass(key) \o (IF restart THEN <<[op |-> "R", m |-> OptSeq(key)[1]]>> ELSE <<>>) \o Pass(key)
+BaseSweepKeys == {<<m.kind, m.how, m.ex>> : m \in {x \in Menu : x.base /\ Cardinality(Opts(x.kind, x.how)) > 1}}
+Plans == IF Mode = "opts" THEN {Sweep(key, FALSE) : key \in SweepKeys} \cup {Sweep(key, TRUE) : key \in (IF MaxRestarts > 0 THEN SweepKeys ELSE BaseSweepKeys)}
+         ELSE {<<>>}
+
+GInit == MInit /\ hist = <<>> /\ done = FALSE /\ pend = 0 /\ nres = 0 /\ plan \in Plans
+GImport == ~imported /\ Import(0) /\ UNCHANGED <<draws, nexp, hist, done, pend, nres, plan>>
+LogBuild(m, p) == Log([op |-> "Construct", art |-> Len(arts) + 1, kind |-> m.kind, how |-> m.how, ex |-> m.ex, opt |-> m.opt, part |-> p,
+                       parts |-> Parts(m.kind, m.how, m.opt)])
+GConstruct == /\ Mode # "opts" /\ imported /\ Open = 0 /\ pend = 0 /\ NBuilds < Depth /\ (Fused \/ Len(hist) < MaxLen)
               /\ \E m \in (IF Fused THEN UseMenu ELSE {RandomElement(UseMenu)}) :      \* free mode is simulated: one candidate per step keeps the mix of step kinds balanced
-                                    /\ ConstructItem(m)
-                                    /\ Log([op |-> "Construct", art |-> Len(arts) + 1, kind |-> m.kind, how |-> m.how, ex |-> m.ex])
-              /\ pend' = (IF Fused THEN Len(arts) + 1 ELSE 0) /\ UNCHANGED <<done, nres>>
-GReconfigure == /\ imported /\ pend = 0 /\ Len(arts) < Depth /\ (Fused \/ Len(hist) < MaxLen)
+                                    ConstructItem(m, 1) /\ LogBuild(m, 1)
+              /\ pend' = (IF Fused THEN Len(arts) + 1 ELSE 0) /\ UNCHANGED <<done, nres, plan>>
+\* the next part of the build that has begun: forced (nothing else is enabled while a build is open)
+LastItem == {m \in UseMenu : /\ m.kind = Art(Len(arts)).kind /\ m.how = Art(Len(arts)).how /\ ToSet(m.ex) = Art(Len(arts)).ex
+                             /\ m.opt = Art(Len(arts)).opt}
+GPart == /\ imported /\ Open > 0
+         /\ \E m \in {CHOOSE x \in LastItem : TRUE} : ConstructItem(m, Art(Len(arts)).part + 1) /\ LogBuild(m, Art(Len(arts)).part + 1)
+         /\ UNCHANGED <<done, pend, nres, plan>>
+GReconfigure == /\ Mode # "opts" /\ imported /\ Open = 0 /\ pend = 0 /\ NBuilds < Depth /\ (Fused \/ Len(hist) < MaxLen)
                 /\ \E o \in live : \E m \in (IF Fused THEN ReconfItems(o) ELSE IF ReconfItems(o) = {} THEN {} ELSE {RandomElement(ReconfItems(o))}) :
                                     /\ ReconfigureItem(o, m)
                                     /\ Log([op |-> "Reconfigure", art |-> Len(arts) + 1, of |-> o, kind |-> m.kind, how |-> m.how, ex |-> m.ex])
-                /\ pend' = (IF Fused THEN Len(arts) + 1 ELSE 0) /\ UNCHANGED <<done, nres>>
-GExport == /\ imported /\ (IF Fused THEN pend # 0 ELSE Len(hist) < MaxLen)
+                /\ pend' = (IF Fused THEN Len(arts) + 1 ELSE 0) /\ UNCHANGED <<done, nres, plan>>
+\* fused: the artefacts of the last build are exported one after the other (pend = the first one that has not been exported)
+GExport == /\ imported /\ Open = 0 /\ (IF Fused THEN pend # 0 ELSE Len(hist) < MaxLen)
            /\ \E a \in (IF Fused THEN {pend} ELSE live) : ExportArt(a) /\ Log([op |-> "Export", art |-> a])
-           /\ pend' = 0 /\ UNCHANGED <<done, nres>>
-GRestart == /\ imported /\ pend = 0 /\ nres < MaxRestarts /\ live # {} /\ Len(arts) < Depth /\ (Fused \/ Len(hist) < MaxLen)
-            /\ Restart /\ Log([op |-> "Restart", art |-> 0]) /\ nres' = nres + 1 /\ UNCHANGED <<draws, nexp, done, pend>>
-Finish == /\ ~done /\ pend = 0 /\ arts # <<>> /\ LastOp # "Restart" /\ (Fused \/ Len(hist) = MaxLen)
+           /\ pend' = (IF Fused /\ pend < Len(arts) THEN pend + 1 ELSE 0) /\ UNCHANGED <<done, nres, plan>>
+GRestart == /\ Mode # "opts" /\ imported /\ pend = 0 /\ nres < MaxRestarts /\ live # {} /\ NBuilds < Depth /\ (Fused \/ Len(hist) < MaxLen)
+            /\ Restart /\ Log([op |-> "Restart", art |-> 0]) /\ nres' = nres + 1 /\ UNCHANGED <<draws, nexp, done, pend, plan>>
+\* the option lane follows its plan
+GPlanBuild == /\ Mode = "opts" /\ imported /\ Open = 0 /\ pend = 0 /\ plan # <<>> /\ Head(plan).op = "B"
+              /\ ConstructItem(Head(plan).m, 1) /\ LogBuild(Head(plan).m, 1)
+              /\ pend' = Len(arts) + 1 /\ plan' = Tail(plan) /\ UNCHANGED <<done, nres>>
+GPlanRestart == /\ Mode = "opts" /\ imported /\ pend = 0 /\ plan # <<>> /\ Head(plan).op = "R"
+                /\ Restart /\ Log([op |-> "Restart", art |-> 0]) /\ nres' = nres + 1 /\ plan' = Tail(plan) /\ UNCHANGED <<draws, nexp, done, pend>>
+Finish == /\ ~done /\ pend = 0 /\ Open = 0 /\ arts # <<>> /\ LastOp # "Restart"
+          /\ (IF Mode = "opts" THEN plan = <<>> ELSE (Fused \/ Len(hist) >= MaxLen))
           /\ done' = TRUE /\ PrintT(ToJson(hist))
-          /\ UNCHANGED <<arts, old, proc, live, imported, draws, nexp, hist, pend, nres>>
-GNext == ~done /\ (GImport \/ GConstruct \/ GReconfigure \/ GExport \/ GRestart \/ Finish)
+          /\ UNCHANGED <<arts, old, proc, live, imported, draws, nexp, hist, pend, nres, plan>>
+GNext == ~done /\ (GImport \/ GConstruct \/ GPart \/ GReconfigure \/ GExport \/ GRestart \/ GPlanBuild \/ GPlanRestart \/ Finish)
+\* the options table for the harness (finding keys name the option combination when it is not the default one)
+OptTable == {[kind |-> m.kind, how |-> m.how, dflt |-> Dflt(m.kind, m.how), n |-> Cardinality(Opts(m.kind, m.how))] : m \in Menu}
+ASSUME Mode = "opts" => PrintT(ToJson(OptTable))
+ASSUME \A m \in Menu : Dflt(m.kind, m.how) \in Opts(m.kind, m.how) /\ m.opt \in Opts(m.kind, m.how)
+\* the option lane reaches every option combination of every entry point (checked on the plans themselves)
+ASSUME Mode = "opts" => \A key \in SweepKeys : {Pass(key)[i].m.opt : i \in DOMAIN Pass(key)} = Opts(key[1], key[2])
 =============================================================================
